@@ -58,19 +58,30 @@ def observe(mage, spec):
 # ---------------------------------------------------------------- the oracle (the property sentence)
 def oracle(spec, o):
     """returns None or the clause that failed"""
-    defs = c07gen.all_defs(spec)                      # id -> dict(alias, path, recv, name, pkg)
-    names = [(c07gen.runnable(d).lower(), ("def", i)) for i, d in defs.items()]
+    defs = c07gen.all_defs(spec)                      # id -> dict(path, recv, name, pkg)
+    names = [(c07gen.runnable(defs[i], a).lower(), ("def", i)) for i, a in c07gen.exposures(spec)]
     names += [(a["key"].lower(), ("alias", a["key"])) for a in spec["aliases"]]
     by = {}
     for n, what in names:
         by.setdefault(n, []).append(what)
-    dup = {n: l for n, l in by.items() if len(l) > 1}
+    # two runnable names collide when a name stands for two different things; one definition that is
+    # reachable under one name twice (the same package as a bare-tag import twice) is not decided by the sentence
+    dup = {n: l for n, l in by.items() if len(set(l)) > 1}
+    selfdup = {n: l for n, l in by.items() if len(l) > 1 and len(set(l)) == 1}
+    if not dup and selfdup and o["rc"] != 0:
+        if o["rc"] != 1 or o["class"] != "dupe" or not o["groups"]:
+            return "exit %d (%s) for a package whose only repeated names are one definition imported twice: %s" % (o["rc"], o["class"], o["stderr"][-300:].strip())
+        for g in o["groups"]:
+            ok_ids = [c07gen.ident(defs[w[1]]) for w in selfdup.get(g["key"], [])]
+            if g["kind"] != "multi" or g["key"] not in selfdup or any(i not in ok_ids for i in g["ids"]):
+                return "the message names %r %s; the only repeated names are %s" % (g["key"], g["ids"], sorted(selfdup))
+        return None
     if not dup:
         if o["rc"] != 0:
             return "no two runnable names are equal ignoring case, yet `mage -l` exited %d (%s): %s" % (o["rc"], o["class"], o["stderr"][-300:].strip())
         own = {}
-        for i, d in defs.items():
-            own[c07gen.runnable(d).lower()] = i
+        for i, a in c07gen.exposures(spec):
+            own[c07gen.runnable(defs[i], a).lower()] = i
         for a in spec["aliases"]:
             own[a["key"].lower()] = a["ref"]
         for w, ran in o["runs"]:
@@ -122,9 +133,10 @@ def pkg_term(spec):
         return "tg %s %s" % (coq_str(t["recv"]), coq_str(t["name"]))
     loc = coq_list([tg(t) for t in spec["locals"]])
     imps = coq_list(["im %s %s %s" % (coq_str(i["alias"]), coq_str(c07gen.ipath(spec, i)), coq_list([tg(t) for t in i["tgts"]])) for i in spec["imports"]])
-    def fn(d):
-        return "fn %s %s %s %s" % (coq_str(d["alias"]), coq_str(d["path"]), coq_str(d["recv"]), coq_str(d["name"]))
-    al = coq_list(["(%s, %s)" % (coq_str(a["key"]), fn(defs[a["ref"]])) for a in spec["aliases"]])
+    def fn(ref):
+        d = defs[ref]
+        return "fn %s %s %s %s" % (coq_str(c07gen.alias_of_ref(spec, ref)), coq_str(d["path"]), coq_str(d["recv"]), coq_str(d["name"]))
+    al = coq_list(["(%s, %s)" % (coq_str(a["key"]), fn(a["ref"])) for a in spec["aliases"]])
     return "(pk_ %s %s %s)" % (loc, imps, al)
 
 
@@ -162,7 +174,7 @@ def run(ctx):
     matrix, outcome, msgs = {}, {"accepted": 0, "rejected": 0, "other": 0}, {"case": 0, "alias": 0, "multi": 0}
     words_run = 0
     for spec, o in zip(specs, obs):
-        kind = "%s/%s" % (spec["kind"], "collision" if spec["collide"] else "near-miss")
+        kind = "%s/%s" % (spec["kind"], "undecided" if spec["collide"] is None and spec["kind"] != "soup" else ("collision" if spec["collide"] else "near-miss"))
         matrix.setdefault(kind, {"n": 0, "rejected": 0})
         matrix[kind]["n"] += 1
         if o["rc"] == 0:
@@ -181,7 +193,7 @@ def run(ctx):
         h = case_hash([spec["locals"], spec["imports"], spec["aliases"], spec["words"]])
         if h not in seen:
             seen.add(h)
-            if len(c07gen.all_defs(spec)) + len(spec["aliases"]) >= 2 and (o["rc"] != 0 or o["runs"]):
+            if len(c07gen.exposures(spec)) + len(spec["aliases"]) >= 2 and (o["rc"] != 0 or o["runs"]):
                 nontriv += 1
         items.append("{| c_pkg := %s; c_obs := %s |}" % (pkg_term(spec), obs_term(spec, o)))
     header = "From Mage Require Import Base.Strs Model.Dupes Run.eval_C07.\n"
